@@ -32,7 +32,7 @@ QUICK_SHAPES = [
     "leftrec", "midrec", "ambig-binop", "ambig-concat-null", "cyclic-unit", "prop-c03", "prop-c05",
     "hidden-left", "hidden-right", "known-c02", "nullable-chain", "two-nullables", "lr2", "lr1-not-lalr",
     "lex-a-aa", "lex-a-ab-b", "lex-prefix", "paren", "rr-conflict", "right-nullable", "reduce-many-empty",
-    "cyclic-null", "deep-unit-cycle", "hidden-left-2", "lex-alt", "nullable-rhs3", "nullable-tails", "glr-revisit", "g8", "glr-cyclic-nested", "lalr-late-widening", "twice-same-nt", "nullable-chain-rec", "nullable-tail-alt",
+    "cyclic-null", "deep-unit-cycle", "hidden-left-2", "lex-alt", "nullable-rhs3", "nullable-tails", "glr-revisit", "g8", "glr-cyclic-nested", "lalr-late-widening", "twice-same-nt", "nullable-chain-rec", "nullable-tail-alt", "unit-chain-empty",
 ]
 
 
